@@ -392,8 +392,12 @@ where
             .save_welcome(welcome)
             .map_err(|e| Error::Welcome(e.to_string()))?;
 
-        // Update the group to inactive
-        if let Some(mut group) = self.get_group(&mls_group_id.into())? {
+        // Update the group to inactive - but only the pending group this invitation created.
+        // An invitation naming the MLS group id of a group the user is already an active
+        // member of must not disable that group when it is declined.
+        if let Some(mut group) = self.get_group(&mls_group_id.into())?
+            && group.state == group_types::GroupState::Pending
+        {
             group.state = group_types::GroupState::Inactive;
             self.storage()
                 .save_group(group)
